@@ -73,7 +73,7 @@ def run(ctx) -> None:
     ctx.rule("R5", "prerequisite: the comparator's order laws and PEP 440 segment rules (C16/R1-R4)")
     ctx.rule("R6", "prerequisite: the start version is the config value or the newest tag in scope (C09/R1-R2)")
     from sa.report import run_prerequisite
-    run_prerequisite(ctx, "C16", ("R1", "R2", "R3", "R4"), "R5")
+    run_prerequisite(ctx, "C16", ("R1", "R2", "R3", "R4", "R7", "R8"), "R5")
     # 'the version it started from (the config value or the newest VCS tag, per tag scope)': how that version is chosen
     # is C09's subject; its scope/selection rules are a precondition here (a failed listing must not read as 'no tags',
     # the default-scope comparison and the newest-tag selection are made under parse_version)
@@ -240,32 +240,52 @@ def run(ctx) -> None:
                   f"{GATE}: a rejection path returns a non-False value", unparse(n.ast), loc=gate.loc(n.ast))
     ctx.check("R3", not gcfg.nodes[gcfg.exit].extra.get("implicit_from"), "gate: no implicit fall-off return",
               f"{GATE}: can fall off the end (returns None)", "", loc=gate.loc())
-    parse_nodes = {}
-    for eng in ("v2version", "v1version"):
-        cs = shapes.find_calls(prog, gate, f"{eng}.parse_version_info")
-        ctx.require(len(cs) == 1, f"gate: expected one {eng}.parse_version_info call")
-        parse_nodes[eng] = gcfg.node_containing(cs[0])
-        ctx.check("R3", [unparse(a) for a in cs[0].args] == [p_new, p_pat], f"gate: {eng}.parse_version_info({p_new}, {p_pat})",
-                  f"{GATE}: the new version is not parsed against the given pattern", unparse(cs[0]), loc=gate.loc(cs[0]))
-    reach_wo_parse = gcfg.reachable(blocked_nodes=list(parse_nodes.values()))
-    for t in trues:
-        ctx.check("R3", t not in reach_wo_parse, "gate: `return True` only after a parse_version_info call completed",
-                  f"{GATE}: returns True without parsing the new version against the pattern", "", loc=gate.loc(gcfg.nodes[t].ast))
-    # a PatternError handler must lead to False
-    hs = shapes.handlers_catching(gcfg, ["PatternError"])
-    ctx.floor("R3", "PatternError handlers in the gate", len(hs), 1)
-    for h in hs:
-        r = gcfg.reachable(h)
-        ctx.check("R3", not (set(trues) & r), "gate: a PatternError leads to `return False`",
-                  f"{GATE}: a version that does not match the pattern can still be accepted",
-                  "`return True` is reachable from the PatternError handler", loc=gate.loc(gcfg.nodes[h].ast))
-    # engine selection inside the gate
-    isnew = [a for a in gpc.atoms if a == "is_new_pattern"]
-    if isnew:
-        for eng, want in (("v2version", BF.var("is_new_pattern")), ("v1version", ~BF.var("is_new_pattern"))):
-            r = gpc.reach(parse_nodes[eng]).project(["is_new_pattern"])
-            ctx.check("R3", r.equiv(want), f"gate: {eng} parser used exactly when is_new_pattern is {'true' if eng == 'v2version' else 'false'}",
-                      f"{GATE}: engine selection for the validity parse is wrong", f"{eng} reached iff {r.to_dnf()}", loc=gate.loc())
+    direct_parse = all(len(shapes.find_calls(prog, gate, f"{e_}.parse_version_info")) == 1 for e_ in ("v2version", "v1version"))
+    iv_calls = [c_ for c_ in ast.walk(gate.node) if isinstance(c_, ast.Call) and isinstance(c_.func, ast.Attribute) and c_.func.attr == "is_valid"]
+    if not direct_parse and len(iv_calls) == 1:
+        # the gate validates through <engine>.is_valid(new_version, pattern): the engine must be the pattern's, the result must
+        # guard `return True`, and is_valid itself must validate by a full parse (C09/R3-R4)
+        ivc = iv_calls[0]
+        ctx.check("R3", [unparse(a_) for a_ in ivc.args] == [p_new, p_pat], f"gate: is_valid({p_new}, {p_pat})",
+                  f"{GATE}: the new version is not validated against the given pattern", unparse(ivc), loc=gate.loc(ivc))
+        eng_e = shapes.inline(gate, ivc.func.value, prog)
+        eng_ok = isinstance(eng_e, ast.IfExp) and unparse(eng_e.body) == "v2version" and unparse(eng_e.orelse) == "v1version" and \
+            unparse(shapes.inline(gate, eng_e.test, prog)) in ("'{' not in raw_pattern and '}' not in raw_pattern", f"'{{' not in {p_pat} and '}}' not in {p_pat}", f"not ('{{' in {p_pat} or '}}' in {p_pat})")
+        ctx.check("R3", eng_ok, "gate: validity is asked of the pattern's own engine", f"{GATE}: engine selection for the validity test is wrong", unparse(eng_e)[:90], loc=gate.loc(ivc))
+        iv_atom = [a_ for a_ in gpc.atoms if a_.replace(" ", "") == unparse(ivc).replace(" ", "")]
+        for t in trues:
+            r_ = gpc.reach(t)
+            ctx.check("R3", bool(iv_atom) and r_.implies(BF.var(iv_atom[0])), "gate: `return True` only when is_valid(...) held",
+                      f"{GATE}: returns True although the new version is not valid for the pattern", r_.to_dnf(), loc=gate.loc(gcfg.nodes[t].ast))
+        from sa.report import run_prerequisite as _rp
+        _rp(ctx, "C09", ("R3", "R4"), "R3")
+    else:
+        parse_nodes = {}
+        for eng in ("v2version", "v1version"):
+            cs = shapes.find_calls(prog, gate, f"{eng}.parse_version_info")
+            ctx.require(len(cs) == 1, f"gate: expected one {eng}.parse_version_info call")
+            parse_nodes[eng] = gcfg.node_containing(cs[0])
+            ctx.check("R3", [unparse(a) for a in cs[0].args] == [p_new, p_pat], f"gate: {eng}.parse_version_info({p_new}, {p_pat})",
+                      f"{GATE}: the new version is not parsed against the given pattern", unparse(cs[0]), loc=gate.loc(cs[0]))
+        reach_wo_parse = gcfg.reachable(blocked_nodes=list(parse_nodes.values()))
+        for t in trues:
+            ctx.check("R3", t not in reach_wo_parse, "gate: `return True` only after a parse_version_info call completed",
+                      f"{GATE}: returns True without parsing the new version against the pattern", "", loc=gate.loc(gcfg.nodes[t].ast))
+        # a PatternError handler must lead to False
+        hs = shapes.handlers_catching(gcfg, ["PatternError"])
+        ctx.floor("R3", "PatternError handlers in the gate", len(hs), 1)
+        for h in hs:
+            r = gcfg.reachable(h)
+            ctx.check("R3", not (set(trues) & r), "gate: a PatternError leads to `return False`",
+                      f"{GATE}: a version that does not match the pattern can still be accepted",
+                      "`return True` is reachable from the PatternError handler", loc=gate.loc(gcfg.nodes[h].ast))
+        # engine selection inside the gate
+        isnew = [a for a in gpc.atoms if a == "is_new_pattern"]
+        if isnew:
+            for eng, want in (("v2version", BF.var("is_new_pattern")), ("v1version", ~BF.var("is_new_pattern"))):
+                r = gpc.reach(parse_nodes[eng]).project(["is_new_pattern"])
+                ctx.check("R3", r.equiv(want), f"gate: {eng} parser used exactly when is_new_pattern is {'true' if eng == 'v2version' else 'false'}",
+                          f"{GATE}: engine selection for the validity parse is wrong", f"{eng} reached iff {r.to_dnf()}", loc=gate.loc())
     # comparison
     cmp_bf = None
     cmp_desc = ""
